@@ -45,11 +45,11 @@ Proof. apply gap_okb_sound. reflexivity. Qed.
 
 (* 5. THE PROPERTY (full statement, kept visible; proved below for growing sub-grammars):
 
-   Theorem C01_parse_render : forall d l,
-     wf_doc d -> wf_layout d l -> parse (render d l) = Ok (flatten d, bom l).
-   Corollary C01_layout_independent : forall d l1 l2,
-     wf_doc d -> wf_layout d l1 -> wf_layout d l2 ->
-     omap fst (parse (render d l1)) = omap fst (parse (render d l2)).                              *)
+   | Theorem C01_parse_render : forall d l,
+   |   wf_doc d -> wf_layout d l -> parse (render d l) = Ok (flatten d, bom l).
+   | Corollary C01_layout_independent : forall d l1 l2,
+   |   wf_doc d -> wf_layout d l1 -> wf_layout d l2 ->
+   |   omap fst (parse (render d l1)) = omap fst (parse (render d l2)).                            *)
 
 (* stage 1: top-level fields `key op scalar` — all 8 operators, quoted and unquoted keys and
    values, EVERY layout (gaps of white space, CR/LF, ';', comments; BOM; left padding) *)
